@@ -311,6 +311,9 @@ func runC15(c *Ctx) {
 	retryLaterNotWrapped(c, "R4")
 	retryLaterSurvivesAdapters(c, "R4")
 	zeroDelayHonoured(c, "R4")
+	expiryCountedFromRequestTime(c, "R1")
+	authResendOnlyWithoutAuthorization(c, "R2")
+	concatKeepsEveryTuple(c, "R4")
 	transferRelRule(c, "R5")
 	if cf := p.Fn("tq", "(batch).Concat"); cf != nil {
 		n := 0
